@@ -1050,6 +1050,24 @@ class Compiler:
 
         return free_vars
 
+    @staticmethod
+    def _compound_opcode(operator: str) -> OpCode:
+        """The binary operation of a compound assignment operator such as `+=`."""
+        op_map = {
+            "+": OpCode.ADD,
+            "-": OpCode.SUB,
+            "*": OpCode.MUL,
+            "/": OpCode.DIV,
+            "%": OpCode.MOD,
+            "&": OpCode.BAND,
+            "|": OpCode.BOR,
+            "^": OpCode.BXOR,
+            "<<": OpCode.SHL,
+            ">>": OpCode.SHR,
+            ">>>": OpCode.USHR,
+        }
+        return op_map[operator[:-1]]
+
     def _compile_arrow_function(
         self, node: ArrowFunctionExpression
     ) -> CompiledFunction:
@@ -1557,21 +1575,7 @@ class Compiler:
                                 idx = self._add_name(name)
                                 self._emit(OpCode.LOAD_NAME, idx)
                     self._compile_expression(node.right)
-                    op = node.operator[:-1]  # Remove '='
-                    op_map = {
-                        "+": OpCode.ADD,
-                        "-": OpCode.SUB,
-                        "*": OpCode.MUL,
-                        "/": OpCode.DIV,
-                        "%": OpCode.MOD,
-                        "&": OpCode.BAND,
-                        "|": OpCode.BOR,
-                        "^": OpCode.BXOR,
-                        "<<": OpCode.SHL,
-                        ">>": OpCode.SHR,
-                        ">>>": OpCode.USHR,
-                    }
-                    self._emit(op_map[op])
+                    self._emit(self._compound_opcode(node.operator))
 
                 self._emit(OpCode.DUP)
                 cell_slot = self._get_cell_var(name)
@@ -1598,7 +1602,13 @@ class Compiler:
                 else:
                     idx = self._add_constant(node.left.property.name)
                     self._emit(OpCode.LOAD_CONST, idx)
+                if node.operator != "=":
+                    # Compound assignment: read the current value first
+                    self._emit(OpCode.DUP2)
+                    self._emit(OpCode.GET_PROP)
                 self._compile_expression(node.right)
+                if node.operator != "=":
+                    self._emit(self._compound_opcode(node.operator))
                 self._emit(OpCode.SET_PROP)
 
         elif isinstance(node, SequenceExpression):
